@@ -92,8 +92,126 @@ func runC16(ctx *Ctx) {
 		r := newRng(ctx.Seed, fmt.Sprintf("C16/%d", i))
 		run(genPager(r, newPageGen(r)))
 	}
+	// ---- the groups of adjacent numbers as a state machine: random call sequences on the real
+	// MonotonicPageInfoGroups against the model
+	pg := newCorr("pagegroups")
+	for i := 0; i < ctx.pick(3000, 60000); i++ {
+		r := newRng(ctx.Seed, fmt.Sprintf("C16/groups/%d", i))
+		var ops []distiller.VerifGroupOp
+		var sb strings.Builder
+		n := r.Range(0, 14)
+		fmt.Fprintf(&sb, "%d", n)
+		for j := 0; j < n; j++ {
+			op := distiller.VerifGroupOp{Kind: 1, Num: r.Range(0, 5)}
+			switch {
+			case r.Chance(18):
+				op = distiller.VerifGroupOp{Kind: 0}
+			case j == n-1 && r.Chance(50):
+				// CleanUp is the last call of the scan (FindOutlink); in the middle of a call
+				// sequence it is outside the protocol (the real type would dereference nil)
+				op = distiller.VerifGroupOp{Kind: 2}
+			case r.Chance(60):
+				op.URL = fmt.Sprintf("http://e.com/%d", r.Range(1, 9))
+			}
+			ops = append(ops, op)
+			fmt.Fprintf(&sb, " %d %d %s", op.Kind, op.Num, hx(op.URL))
+		}
+		var parts []string
+		for _, g := range distiller.VerifMonotonicGroups(ops) {
+			var items []string
+			for _, p := range g.List {
+				items = append(items, fmt.Sprintf("%d:%s", p.Num, hx(p.URL)))
+			}
+			parts = append(parts, fmt.Sprintf("<%d:%s>", g.DeltaSign, strings.Join(items, ",")))
+		}
+		pg.add(sb.String(), strings.Join(parts, " "), map[string]interface{}{"ops": ops})
+	}
+	pp := pathPagingCorr(ctx, ctx.pick(1500, 40000))
 	pn.run(ctx)
 	pv.run(ctx)
+	pg.run(ctx)
+	pp.run(ctx)
+}
+
+// pathPagingCorr: IsPagingURL of path-component patterns, byte by byte: the patterns of
+// generated URLs against probe URLs built around the pattern's own pieces (used by C16 and C01).
+func pathPagingCorr(ctx *Ctx, n int) *Corr {
+	rep := ctx.Rep
+	pp := newCorr("pathpaging")
+	for i := 0; i < n; i++ {
+		r := newRng(ctx.Seed, fmt.Sprintf("C16/path/%d", i))
+		u := pathProbeURL(r)
+		// the probes depend on the pattern's fields: first call without probes to learn them
+		for _, f0 := range distiller.VerifPathPatternProbe(u, nil) {
+			probes := pathProbes(r, f0.Fields.StrURL, f0.Fields.Prefix, f0.Fields.Suffix, f0.Fields.PlaceholderStart)
+			for _, f := range distiller.VerifPathPatternProbe(u, probes) {
+				if f.Fields != f0.Fields {
+					continue
+				}
+				var sb strings.Builder
+				fmt.Fprintf(&sb, "%s %d %d %s %s %d %d", hx(f.Fields.StrURL), f.Fields.PlaceholderStart, f.Fields.PlaceholderSegmentStart, hx(f.Fields.Prefix), hx(f.Fields.Suffix), f.Fields.URLOrigin, len(probes))
+				for _, p := range probes {
+					sb.WriteString(" " + hx(p))
+				}
+				pp.add(sb.String(), f.Results+". 1", map[string]interface{}{"url": u, "probes": probes})
+				rep.histN("pathpaging:accepted", strings.Count(f.Results, "1"))
+				rep.histN("pathpaging:rejected", strings.Count(f.Results, "0"))
+				rep.histN("pathpaging:panicked", strings.Count(f.Results, "P"))
+			}
+		}
+	}
+	return pp
+}
+
+func pathProbeURL(r *Rng) string {
+	host := r.Pick("example.com", "www.example.com", "h.io")
+	segs := []string{"news", "story", "a", "2024", "05", "page", "thread-77", "x_y", "caf%C3%A9", "tag", "p", "index.html", "gallery"}
+	var parts []string
+	for i := 0; i < r.Range(0, 3); i++ {
+		parts = append(parts, segs[r.Intn(len(segs))])
+	}
+	num := fmt.Sprint(r.Range(0, 120))
+	last := r.Pick(num, "page-"+num, "story_"+num+".html", "p"+num, num+".htm", "a-"+num+"-b", num+"/comments", "s"+num+"e"+fmt.Sprint(r.Range(1, 9)), "[*!]/"+num)
+	parts = append(parts, last)
+	u := "http://" + host + "/" + strings.Join(parts, "/")
+	if r.Chance(15) {
+		u += "?q=1"
+	}
+	if r.Chance(5) {
+		u = "javascript:/" + strings.Join(parts, "/")
+	}
+	return u
+}
+
+func pathProbes(r *Rng, strURL, prefix, suffix string, pStart int) []string {
+	with := func(v string) string { return strings.Replace(strURL, "[*!]", v, 1) }
+	probes := []string{with("2"), with("0"), with("15"), with(""), with("+3"), with("-0"), with("-4"), with("99999999999999999999"), with("9223372036854775807"), with("9223372036854775808"),
+		with("x"), with("2x"), prefix, prefix + suffix, prefix + "/" + suffix, prefix + "/7" + suffix, prefix + "/7", suffix, "", "/", strURL, with("٣")}
+	if pStart > 0 && pStart <= len(strURL) {
+		probes = append(probes, strURL[:pStart], strURL[:pStart-1], strURL[:pStart-1]+suffix, strURL[:pStart]+suffix, strURL[:pStart-1]+"8"+suffix)
+	}
+	if i := strings.LastIndex(prefix, "/"); i > 0 {
+		probes = append(probes, prefix[:i]+suffix, prefix[:i], prefix[:i]+"/"+suffix)
+	}
+	for k := 0; k < 6; k++ {
+		s := with(fmt.Sprint(r.Range(0, 30)))
+		switch r.Intn(4) {
+		case 0:
+			s = s[:r.Intn(len(s)+1)]
+		case 1:
+			s = s[r.Intn(len(s)+1):]
+		case 2:
+			j := r.Intn(len(s) + 1)
+			s = s[:j] + r.Pick("/", "-", "x", "1", ".html") + s[j:]
+		default:
+			if len(s) > 0 {
+				j := r.Intn(len(s))
+				s = s[:j] + s[j+1:]
+			}
+		}
+		probes = append(probes, s)
+	}
+	return probes
 }
 
 // c16Corpus: the layouts that once failed run first.
